@@ -9,6 +9,6 @@ CONSTANTS
   ThrSet = {0, 1, 2, 4}
   PosSet = {2}
 INVARIANTS TypeOK
-PROPERTIES SetExact Counts Algebra EqualOK ReadOnly IterMeaning IterRefines
+PROPERTIES SetExact RunExact Counts Algebra EqualOK ReadOnly IterMeaning IterRefines
 VIEW View
 CHECK_DEADLOCK FALSE
